@@ -6,6 +6,7 @@ namespace selector) before any mutation, positive answer or result push, overwri
 write, sanitises every metadata map that leaves the server, scopes /usage, and installs the authenticating interceptor.
 Leaks through the number of results of a global k-NN that is filtered afterwards, and timing, are not decided.
 """
+import json
 import re
 
 from kvstatic import flow, pathsens, rt, util, server
@@ -53,6 +54,88 @@ ATOMS = [
     pathsens.Atom('ns_eq', r'^eq\[var:doc_namespace, .*(\.namespace|var:namespace)\]$|^eq\[.*(\.namespace|var:namespace), var:doc_namespace\]$'),
     pathsens.Atom('needs_md', r'^bool\[var:needs_metadata\]$'),
 ]
+
+
+# ------------------------------------------------------------------ roles
+# The atoms above and the rules below write `var:tenant`, `var:filtered`, … for locals of /repo.  What is meant is the variable that PLAYS that role; it is
+# found by what defines it and how it is used (types, fields, callees, constants: nothing a rename touches) and rendered under the role name, whatever
+# it is called in the source (util.bind_role).  Where nothing, or something ambiguous, plays the role, the names are left alone: the rule then reads the
+# source names as before and fails closed.
+T_OPT_TENANT = r'^core::option::Option<kyrodb_server::TenantContext>$'
+T_STRMAP = r'^std::collections::hash::map::HashMap<alloc::string::String, alloc::string::String>$'
+T_IDS = r'^alloc::vec::Vec<u64>$'
+NEW_VEC = r'^Vec::(with_capacity|new)\('
+
+
+def bind_each(body, role, type_rx, origin_rx, used_as=None):
+    """util.bind_role for a role that several locals of one function play, one per branch or loop body (the three `filtered` lists and the two
+    `doc_namespace` of batch_delete, the `if let Some(tenant) = &tenant` bindings): every user variable with that type and that variable-level definition
+    (and, with used_as = (callee regex, argument index), handed to such a call, directly or by reference) renders as `var:<role>`.
+    Nothing qualifies, or a variable that does not qualify already carries the name → nothing is changed (the rule keeps reading the source names)."""
+    if body is None:
+        return []
+    ov = flow.Origin(body, stop_at_vars=True)
+    used = None
+    if used_as:
+        used = set()
+        for c in body.calls:
+            if c.callee and re.search(used_as[0], flow.short(c.callee)) and len(c.args) > used_as[1] and c.args[used_as[1]].get('k') in ('mv', 'cp'):
+                o = ov.of_operand(c.args[used_as[1]])
+                if o[0] == 'var':
+                    used.add(o[1])
+                elif not c.args[used_as[1]]['pl'].get('p'):
+                    used.add(c.args[used_as[1]]['pl']['l'])
+    ls = []
+    for l, names in list(body.varnames.items()):
+        if not names or not re.search(type_rx, body.locals[l]) or (used is not None and l not in used):
+            continue
+        try:
+            r = flow.render(ov.of_local(l))
+        except Exception:
+            continue
+        if re.search(origin_rx, r):
+            ls.append(l)
+    if not ls or any(role in ns for l2, ns in body.varnames.items() if l2 not in ls):
+        return []
+    for l in ls:
+        body.varnames[l] = [role]
+    if hasattr(body, '_err_blocks'):
+        delattr(body, '_err_blocks')
+    return ls
+
+
+def bind_handler_roles(b):
+    """Roles common to the tenant-scoped RPC handlers (call before the first flow.Origin of the body)."""
+    # the context unwrapped by `if let Some(tenant) = &tenant` is a role of its own: it shadows the Option in the source, it must not be taken for it here
+    bind_each(b, 'tenant_ctx', r'^&kyrodb_server::TenantContext$', r'@Some→Some\.0$')
+    # tenant: the Option<TenantContext> that tenant_context(&request)? produced and that the handler passes on (as_ref) to the rate limiter / id mapping
+    util.bind_role(b, 'tenant', type_rx=T_OPT_TENANT, assigned_from=r'KyroDBServiceImpl::tenant_context$',
+                   used_as=(r'KyroDBServiceImpl::(enforce_rate_limit|map_doc_id)$', 1))
+    bind_namespace_roles(b)
+
+
+def bind_namespace_roles(b):
+    # doc_namespace: the namespace recorded with the stored document, metadata.get("__namespace__")….unwrap_or("")
+    bind_each(b, 'doc_namespace', r'^&str$', r'HashMap::get\(.*, "__namespace__"\)')
+    # namespace: the request's namespace selector taken out as &str (req.namespace.as_str())
+    bind_each(b, 'namespace', r'^&str$', r'^(?:var|arg):\w+→\w+Request\.namespace$')
+
+
+def captured_value(prog, clo, cap):
+    """What the parent put into the capture `cap` of the closure body `clo`: variable-level rendering in the parent ('' when it cannot be resolved).
+    `cap:<name>` carries the name of a local of the parent; its position in the closure environment does not."""
+    par = prog.bodies.get(clo.parent) if clo is not None and clo.parent else None
+    m = re.search(r'"\^(\d+):%s"' % re.escape(cap), json.dumps(clo.blocks)) if par is not None else None
+    if not m:
+        return ''
+    pv = None
+    for blk in par.blocks:
+        for s in blk['s']:
+            rv = s.get('rv')
+            if rv and rv['k'] == 'agg' and rv.get('ak') == 'closure' and rv.get('def') == clo.id and len(rv['ops']) > int(m.group(1)):
+                pv = pv or flow.Origin(par, stop_at_vars=True)
+                return flow.render(pv.of_operand(rv['ops'][int(m.group(1))]))
+    return ''
 
 
 def guard_ok(a, allow_no_metadata=False):
@@ -149,6 +232,7 @@ def run(ctx, prog):
     for h in TENANT_RPCS:
         b = server.handler(ctx, 'C10.R1', h, 'KyroDBServiceImpl::tenant_context')
         bodies[h] = b
+        bind_handler_roles(b)
         tc = b.calls_to('KyroDBServiceImpl::tenant_context')[0]
         use = util.result_use(b, tc)
         s_e = flow.success_edges(b, tc)
@@ -302,8 +386,13 @@ def run(ctx, prog):
                  ('reached with %s' % bad[0]) if bad else '%d abstract arrivals; ownership compared with tenant.tenant_index: %s' % (len(arr), rhs))
     # batch_delete by ids
     b = bodies['batch_delete']
+    # filtered: an id list built empty in the handler and handed to engine.batch_delete (one per branch); filters: the list of conjuncts of the filter delete;
+    # combined: the filter handed to engine.batch_delete_by_metadata_filter
+    bind_each(b, 'filtered', T_IDS, NEW_VEC, used_as=(r'TieredEngine::batch_delete$', 1))
+    util.bind_role(b, 'filters', type_rx=r'^alloc::vec::Vec<kyrodb_engine::proto::MetadataFilter>$', origin_rx=NEW_VEC)
+    util.bind_role(b, 'combined', type_rx=r'^kyrodb_engine::proto::MetadataFilter$', used_as=(r'TieredEngine::batch_delete_by_metadata_filter$', 1))
     ov = flow.Origin(b, stop_at_vars=True)
-    pushes = [c.bb for c in b.calls if c.callee and c.callee.endswith('::push') and c.args and flow.render(ov.of_operand(c.args[0])) == 'var:filtered']
+    pushes =[c.bb for c in b.calls if c.callee and c.callee.endswith('::push') and c.args and flow.render(ov.of_operand(c.args[0])) == 'var:filtered']
     raw = [c.bb for c in b.calls_to('TieredEngine::batch_delete') if 'filtered' not in flow.render(ov.of_operand(c.args[1]))]
     terms, seen = _explore(b, ATOMS, stop_blocks=set(pushes) | set(raw), max_states=400000)
     bad = []
@@ -346,8 +435,14 @@ def run(ctx, prog):
         ctx.inst('C10.R3', 'rpc batch_delete', 'combined filter is the AND of all pushed filters', 'AndFilter' in r and 'Vec::pop' in r or 'AndFilter' in r, 'combined = %s' % r[:160])
     # bulk_query
     b = bodies['bulk_query']
+    # query_responses: the list of per-document answers; found / embedding / metadata: the engine's result for one document, taken apart
+    # (found = result.is_some(); (embedding, metadata, _) = result.unwrap_or(..)) before it is checked and put into the answer
+    util.bind_role(b, 'query_responses', type_rx=r'^alloc::vec::Vec<kyrodb_engine::proto::QueryResponse>$', origin_rx=NEW_VEC)
+    util.bind_role(b, 'found', type_rx=r'^bool$', origin_rx=r'Option::is_some\(')
+    util.bind_role(b, 'embedding', type_rx=r'^alloc::vec::Vec<f32>$', origin_rx=r'Option::unwrap_or\(.*\)\.0$')
+    util.bind_role(b, 'metadata', type_rx=T_STRMAP, origin_rx=r'Option::unwrap_or\(.*\)\.1\)?$')
     ov = flow.Origin(b, stop_at_vars=True)
-    push = [c.bb for c in b.calls if c.callee and c.callee.endswith('::push') and c.args and flow.render(ov.of_operand(c.args[0])) == 'var:query_responses']
+    push =[c.bb for c in b.calls if c.callee and c.callee.endswith('::push') and c.args and flow.render(ov.of_operand(c.args[0])) == 'var:query_responses']
     mism = []
     own_edges, ns_edges, found_f, tnone = [], [], [], []
     for i, blk in enumerate(b.blocks):
@@ -391,6 +486,14 @@ def run(ctx, prog):
              'response push reachable without the ownership test (¬found and tenant = None edges excepted): %s; definitions of `found` other than false: %d' % (not okc, len(other_defs)))
     # build_search_response
     bs = ctx.body('C10.R3', 'KyroDBServiceImpl::build_search_response')
+    # has_namespace: the request carries a namespace selector; needs_metadata: tenant.is_some() || has_namespace || req.filter.is_some(); final_results: the
+    # results of the response; total_found: its saturating counter; candidate: the engine result under inspection (the tenant is a parameter here)
+    util.bind_role(bs, 'has_namespace', type_rx=r'^bool$', origin_rx=r'^Not\(String::is_empty\(.*Request\.namespace\)\)$')
+    util.bind_role(bs, 'needs_metadata', type_rx=r'^bool$', origin_rx=r'^phi\(1 \| Option::is_some\(.*Request\.filter\)\)$')
+    util.bind_role(bs, 'final_results', type_rx=r'^alloc::vec::Vec<kyrodb_engine::proto::SearchResult>$', origin_rx=NEW_VEC)
+    util.bind_role(bs, 'total_found', type_rx=r'^u32$', origin_rx=r'^phi\(0 \| num::saturating_add\(_\d+, 1\)\)$')
+    util.bind_role(bs, 'candidate', type_rx=r'^kyrodb_engine::hnsw_index::SearchResult$', origin_rx=r'Iterator>::next\(.*\)@Some→Some\.0$')
+    bind_namespace_roles(bs)
     ov = flow.Origin(bs, stop_at_vars=True)
     of = flow.Origin(bs)
     rpush = [c.bb for c in bs.calls if c.callee and c.callee.endswith('::push') and c.args and flow.render(ov.of_operand(c.args[0])) == 'var:final_results']
@@ -413,6 +516,9 @@ def run(ctx, prog):
     WR = {'insert': 'TieredEngine::insert', 'bulk_insert': 'TieredEngine::insert', 'bulk_load_hnsw': 'TieredEngine::bulk_load_cold_tier', 'update_metadata': 'TieredEngine::update_metadata'}
     for h, sink in WR.items():
         b = bodies[h]
+        # metadata: the client's map, moved out of the request; documents: the queue of (id, embedding, metadata) rows that bulk_load_hnsw fills
+        util.bind_role(b, 'metadata', type_rx=T_STRMAP, origin_rx=r'^(?:var|arg):\w+→\w+Request\.metadata$')
+        util.bind_role(b, 'documents', type_rx=r'^alloc::vec::Vec<\(u64, alloc::vec::Vec<f32>, std::collections::hash::map::HashMap<alloc::string::String, alloc::string::String>\)>$', origin_rx=NEW_VEC)
         of = flow.Origin(b)
         ov = flow.Origin(b, stop_at_vars=True)
         sinks = [c.bb for c in b.calls_to(sink)]
@@ -500,10 +606,17 @@ def run(ctx, prog):
         ctx.missing('C10.R6', 'usage_handler: get_all_snapshots')
     else:
         u = uh[0]
+        # request_all: the flag the scope match yields (false / true); requester: the ObservabilityAuthContext taken out of the handler's
+        # Option<Extension<_>> parameter — whatever the locals on the way are called, the fully expanded origin is parameter@Some.0→Extension.0
+        util.bind_role(u, 'request_all', type_rx=r'^bool$', origin_rx=r'^phi\(0 \| 1\)$')
         uv = flow.Origin(u, stop_at_vars=True)
+        uf = flow.Origin(u)
+        EXT = r'(?:cap|arg):\w+@Some→Some\.0→Extension\.0'
+        ctx_l = dict((l, bool(re.match('^' + EXT + '$', flow.render(uf.of_local(l))))) for l, ns in u.varnames.items() if ns and re.search(r'^kyrodb_server::ObservabilityAuthContext$', u.locals[l]))
+        req_names = sorted(set(u.varnames[l][0] for l in ctx_l if all(ok_ for l2, ok_ in ctx_l.items() if u.varnames[l2][0] == u.varnames[l][0]))) or ['requester']
         alls = [c.bb for c in u.calls_to('UsageTracker::get_all_snapshots')]
         atoms = [pathsens.Atom('auth', r'^bool\[.*AuthConfig\.enabled\]$'), pathsens.Atom('all', r'^bool\[var:request_all\]$'),
-                 pathsens.Atom('admin', r'^bool\[var:requester→ObservabilityAuthContext\.is_admin\]$')]
+                 pathsens.Atom('admin', r'^bool\[var:(?:%s)→ObservabilityAuthContext\.is_admin\]$' % '|'.join(re.escape(n) for n in req_names))]
         terms, seen = _explore(u, atoms, stop_blocks=set(alls))
         arr = [t for t in terms if t[0] in alls]
         bad = [a for (bb, via, a, p) in arr if not (a.get('auth') is False or (a.get('all') is True and a.get('admin') is True))]
@@ -511,7 +624,9 @@ def run(ctx, prog):
                  ('reached with %s' % bad[0]) if bad else '%d arrivals' % len(arr))
         gs = u.calls_to('UsageTracker::get_snapshot')
         a = flow.render(uv.of_operand(gs[0].args[1])) if gs else ''
-        ctx.inst('C10.R6', 'usage_handler', 'single snapshot is the requester\'s own', bool(gs) and 'var:requester→ObservabilityAuthContext.tenant_id' in a, 'get_snapshot(%s)' % a)
+        a_full = flow.render(uf.of_operand(gs[0].args[1])) if gs else ''
+        ctx.inst('C10.R6', 'usage_handler', 'single snapshot is the requester\'s own',
+                 bool(gs) and ('var:requester→ObservabilityAuthContext.tenant_id' in a or bool(re.match('^' + EXT + r'→ObservabilityAuthContext\.tenant_id$', a_full))), 'get_snapshot(%s)' % a)
     om = [b for b in prog.find(r'kyrodb_server::observability_auth_middleware') if b.calls]
     okm = False
     det = ''
@@ -541,7 +656,9 @@ def run(ctx, prog):
         iv = flow.Origin(i_, stop_at_vars=True)
         va = i_.calls_to('AuthManager::validate')[0]
         v_succ = flow.success_edges(i_, va)
-        off = [(j, tg_) for j, bl in enumerate(i_.blocks) if bl['t']['k'] == 'switch' for tg_, p in flow.switch_edge_predicates(i_, j, iv) if re.match(r'^!bool\[cap:auth_enabled\]$', p)]
+        # the "auth disabled" edge tests a captured bool: the one into which the parent put ….auth.enabled (the capture is named after a local of main)
+        off = [(j, tg_) for j, bl in enumerate(i_.blocks) if bl['t']['k'] == 'switch' for tg_, p in flow.switch_edge_predicates(i_, j, iv)
+               for mc in [re.match(r'^!bool\[cap:(\w+)\]$', p)] if mc and (mc.group(1) == 'auth_enabled' or re.search(r'→AuthConfig\.enabled$', captured_value(prog, i_, mc.group(1))))]
         errs = flow.err_blocks(i_)
         ins = [c.bb for c in i_.calls if c.callee and c.callee.endswith('Extensions::insert') and 'TenantContext' in ' '.join(c.ga)]
         r1 = i_.reach([0], avoid_blocks=errs, avoid_edges=set(v_succ) | set(off))
@@ -559,6 +676,9 @@ def run(ctx, prog):
             ctx.inst('C10.R7', 'interceptor', 'TenantContext comes from the validated key', 'AuthManager::validate' in tid and 'ensure_tenant' in tix and 'AuthManager::validate' in tix,
                      'tenant_id = %s…; tenant_index = %s…' % (tid[:60], tix[:60]))
     av = ctx.body('C10.R7', 'AuthManager::validate')
+    # tenant_info: the TenantInfo of the key-table entry under comparison; validated: the Option<TenantInfo> the function builds and returns
+    util.bind_role(av, 'tenant_info', type_rx=r'^&kyrodb_engine::auth::TenantInfo$', origin_rx=r'Iterator>::next\(.*\)@Some→Some\.0\.1$')
+    util.bind_role(av, 'validated', type_rx=r'^core::option::Option<kyrodb_engine::auth::TenantInfo>$', origin_rx=r'option::Option::None\{\}')
     avv = flow.Origin(av, stop_at_vars=True)
     ct = [(j, tg_) for j, bl in enumerate(av.blocks) if bl['t']['k'] == 'switch' for tg_, p in flow.switch_edge_predicates(av, j, avv) if re.match(r'^cmp\[\+ .*Choice::unwrap_u8\(.*ct_eq.*\) == 1\]$', p)]
     en = [(j, tg_) for j, bl in enumerate(av.blocks) if bl['t']['k'] == 'switch' for tg_, p in flow.switch_edge_predicates(av, j, avv) if re.match(r'^bool\[var:tenant_info→TenantInfo\.enabled\]$', p)]
@@ -659,6 +779,8 @@ def run(ctx, prog):
     ctx.floor('C10.R10', 'insertions into the key table', n10, 2, 'load_from_file, add_key')
     lf = ctx.body('C10.R10', 'AuthManager::load_from_file')
     if lf is not None:
+        # keys: the key table this function builds from the file (created empty here)
+        util.bind_role(lf, 'keys', type_rx=r'^std::collections::hash::map::HashMap<alloc::string::String, kyrodb_engine::auth::TenantInfo>$', origin_rx=r'^HashMap::(new|with_capacity)\(')
         ov10 = flow.Origin(lf, stop_at_vars=True)
         inst = []
         for i_, blk in enumerate(lf.blocks):
